@@ -140,6 +140,9 @@ def dbgText (st : State) (getField : State → Program → FieldDef → Nat → 
 structure OpResult where
   m : String     -- model
   s : Option String   -- spec (none: not applicable, e.g. self-overlapping list)
+  /-- partial spec when `s` is not applicable: `(care, expected)` – the result must be `ok n` with `n &&& care = expected`
+      (writes through a list that names a bit twice: the positions no range covers keep the receiver's bits) -/
+  sOutside : Option (Nat × Nat) := none
 
 /-- storage value for an exposed raw value (identity on numbers; the model's `new_with_raw_value`) -/
 def storageOfExposed (st : State) (chk : Bool) (p : Program) (x : Nat) : Option Nat :=
@@ -234,7 +237,11 @@ def evalOp (st : State) (chk : Bool) (p : Program) (ws : List String) : Option O
           some (match sWith st p fd idx r val with
             | .ok (.int _ n) => "ok " ++ toHex (n % 2 ^ p.base.exposed)
             | other => showR st other)
-        some { m := m, s := s }
+        let i := (parseNum idx).getD 0
+        let inRange := match fd.array with | some (c, _) => decide (i < c) | none => true
+        let care := ofBitsBelow p.base.exposed (fun q => !(fd.ranges.any (·.covers (offOf fd i) q)))
+        let so := if selfOverlapping fd && inRange then some (care, r &&& care) else none
+        some { m := m, s := s, sOutside := so }
       | _, _ => none
     | _, _ => none
   | ["rt", raw] =>
@@ -413,12 +420,18 @@ def step (st : State) (chk : Bool) (line : String) : State × Bool × List Strin
       | none => (st, chk, ["bad-op " ++ line])
       | some r =>
         let misM : Bool := r.m != rhs
-        let (misS, skipS) : Bool × Bool := match r.s with | some s => (s != rhs, false) | none => (false, true)
+        let (misS, skipS) : Bool × Bool := match r.s, r.sOutside with
+          | some s, _ => (s != rhs, false)
+          | none, some (care, expected) =>
+            (match rhs.splitOn " " with
+             | ["ok", nTxt] => (match parseNum nTxt with | some n => (n &&& care) != expected | none => true)
+             | _ => true, false)
+          | none, none => (false, true)
         let st' := { st with
           nOps := st.nOps + 1, nMisM := st.nMisM + (if misM then 1 else 0),
           nMisS := st.nMisS + (if misS then 1 else 0), nSkipS := st.nSkipS + (if skipS then 1 else 0) }
         let out := (if misM then [s!"mismatch M {r.m} :: {line}"] else []) ++
-                   (if misS then [s!"mismatch S {r.s.getD ""} :: {line}"] else [])
+                   (if misS then [s!"mismatch S {r.s.getD (match r.sOutside with | some (c, e) => s!"uncovered-bits-kept:mask={toHex c}:value={toHex e}" | none => "")} :: {line}"] else [])
         (st', chk, out)
     | [] => (st, chk, ["bad-op " ++ line])
   | ["stats"] => (st, chk, [s!"stats ops={st.nOps} misM={st.nMisM} misS={st.nMisS} skipS={st.nSkipS}"])
